@@ -35,13 +35,21 @@ impl SegmentFileWriter {
             header.set_payload_length(payload_length);
             header.set_record_id(record_id);
         }
+        #[cfg(nomt_verif)]
+        crate::verif::pre(crate::verif::Kind::Append, std::os::fd::AsRawFd::as_raw_fd(&self.file), self.file_size, header.len() as u64, Some(&header[..]))?;
         self.file.write_all(&header)?;
+        #[cfg(nomt_verif)]
+        crate::verif::post(crate::verif::Kind::Append, std::os::fd::AsRawFd::as_raw_fd(&self.file));
         self.file_size += HEADER_SIZE as u64;
         Ok(())
     }
 
     pub fn write_payload(&mut self, payload: &[u8]) -> std::io::Result<()> {
+        #[cfg(nomt_verif)]
+        crate::verif::pre(crate::verif::Kind::Append, std::os::fd::AsRawFd::as_raw_fd(&self.file), self.file_size, payload.len() as u64, Some(payload))?;
         self.file.write_all(payload)?;
+        #[cfg(nomt_verif)]
+        crate::verif::post(crate::verif::Kind::Append, std::os::fd::AsRawFd::as_raw_fd(&self.file));
         // Calculate the next aligned position.
         let record_alignment = RECORD_ALIGNMENT as u64;
         let current_end = self.file_size + payload.len() as u64;
@@ -52,14 +60,22 @@ impl SegmentFileWriter {
         };
         // The reason we are setting the length here is because otherwise if we just seek and not
         // set the length, then the underlying file may not be extended.
+        #[cfg(nomt_verif)]
+        crate::verif::pre(crate::verif::Kind::SetLen, std::os::fd::AsRawFd::as_raw_fd(&self.file), 0, next_pos, None)?;
         self.file.set_len(next_pos)?;
+        #[cfg(nomt_verif)]
+        crate::verif::post(crate::verif::Kind::SetLen, std::os::fd::AsRawFd::as_raw_fd(&self.file));
         self.file.seek(SeekFrom::Start(next_pos))?;
         self.file_size = next_pos;
         Ok(())
     }
 
     pub fn fsync(&mut self) -> std::io::Result<()> {
+        #[cfg(nomt_verif)]
+        crate::verif::pre(crate::verif::Kind::Fsync, std::os::fd::AsRawFd::as_raw_fd(&self.file), 0, 0, None)?;
         self.file.sync_data()?;
+        #[cfg(nomt_verif)]
+        crate::verif::post(crate::verif::Kind::Fsync, std::os::fd::AsRawFd::as_raw_fd(&self.file));
         Ok(())
     }
 
